@@ -232,18 +232,36 @@ func e2eEligible(src string) bool {
 	return true
 }
 
-func c15HostDoc(host, body string) string {
+// followers: directives that may come right after a description in each host (index 0: nothing follows).
+var c15Followers = map[string][]string{
+	"info": {"", "  Version 2\n"},
+	"http": {"", "  Tags @ft\n", "  Query\n  {}\n", "  Request any\n", "  200 any\n", "  404 any // n\n"},
+	"rpc":  {"", "    Tags @ft\n", "    Params\n    {}\n", "    Result\n    {}\n"},
+	"tag":  {""},
+}
+
+func c15HostDocF(host, body string, follower int) string {
+	f := c15Followers[host][follower%len(c15Followers[host])]
+	tail := ""
+	if strings.Contains(f, "@ft") {
+		tail = "TAG @ft\n"
+	}
+	if body != "" && !strings.HasSuffix(body, "\n") && !strings.HasSuffix(body, "\r") {
+		body += "\n"
+	}
 	switch host {
 	case "info":
-		return "JSIGHT 0.3\nINFO\n  Title \"t\"\n  Description\n" + body
+		return "JSIGHT 0.3\nINFO\n  Title \"t\"\n  Description\n" + body + f + tail
 	case "http":
-		return "JSIGHT 0.3\nGET /a\n  Description\n" + body
+		return "JSIGHT 0.3\nGET /a\n  Description\n" + body + f + tail
 	case "rpc":
-		return "JSIGHT 0.3\nURL /r\n  Protocol json-rpc-2.0\n  Method m\n    Description\n" + body
+		return "JSIGHT 0.3\nURL /r\n  Protocol json-rpc-2.0\n  Method m\n    Description\n" + body + f + tail
 	default:
-		return "JSIGHT 0.3\nTAG @t\n  Description\n" + body
+		return "JSIGHT 0.3\nTAG @t\n  Description\n" + body + f + tail
 	}
 }
+
+func c15HostDoc(host, body string) string { return c15HostDocF(host, body, 0) }
 
 func c15HostField(host string, root *jsonx.Node) (string, bool) {
 	switch host {
@@ -319,8 +337,12 @@ func c15EvalE2E(t *fw.T, c *fw.Case) {
 		return
 	}
 	hookRes, hookOK := c15Direct(t, src)
-	bare := c15HostDoc(host, src)
-	paren := c15HostDoc(host, "(\n"+src+"\n)\n")
+	fol := int(xrand.HashStr(src+host) % 6)
+	bare := c15HostDocF(host, src, fol)
+	paren := c15HostDocF(host, "(\n"+src+"\n)\n", fol)
+	if c15Followers[host][fol%len(c15Followers[host])] != "" {
+		t.Count("e2e_with_follower")
+	}
 	c.Docs = []run.Doc{run.Single([]byte(bare)), run.Single([]byte(paren))}
 	ob := t.Exec(c.Docs[0])
 	op := t.Exec(c.Docs[1])
@@ -354,6 +376,10 @@ func c15EvalE2E(t *fw.T, c *fw.Case) {
 	}
 	if fb != fp {
 		t.Violation("spelling-text:"+host, fmt.Sprintf("text %q gives %q bare and %q in parentheses", src, fb, fp))
+		return
+	}
+	if string(ob.JSON) != string(op.JSON) {
+		t.Violation("spelling-catalog:"+host, fmt.Sprintf("text %q: the catalogs of the bare and the parenthesised spelling differ: %s", src, jsonx.Diff(db.Root, dp.Root, "$")))
 		return
 	}
 	if hookOK && fb != hookRes {
